@@ -23,15 +23,32 @@ MENU = [
     'import soupsieve.__meta__', 'from soupsieve import *',
 ]
 
-PROBE = r'''
-import sys, json
+WORLD = r'''import sys, json, os, warnings as _w, threading as _t, gc as _gc, locale as _loc, logging as _lg, signal as _sg
+def _world():
+    return {
+        "warnings.filters": [repr(f) for f in _w.filters], "warnings.showwarning": repr(_w.showwarning), "warnings.defaultaction": _w.defaultaction,
+        "warnings.onceregistry": len(getattr(_w, "onceregistry", {})), "sys.path": list(sys.path),
+        "environ": dict(os.environ), "cwd": os.getcwd(), "excepthook": repr(sys.excepthook), "displayhook": repr(sys.displayhook),
+        "threads": _t.active_count(), "gc": [_gc.isenabled(), list(_gc.get_threshold())], "recursionlimit": sys.getrecursionlimit(),
+        "locale": _loc.setlocale(_loc.LC_ALL), "logging": [_lg.root.level, len(_lg.root.handlers), _lg.raiseExceptions],
+        "signals": [repr(_sg.getsignal(s)) for s in (_sg.SIGINT, _sg.SIGTERM, _sg.SIGALRM)], "stdout": repr(sys.stdout), "stderr": repr(sys.stderr),
+        "int_max_str_digits": sys.get_int_max_str_digits(), "switchinterval": sys.getswitchinterval(), "trace": repr(sys.gettrace()),
+        "profile": repr(sys.getprofile()), "meta_path": [repr(type(x)) for x in sys.meta_path], "path_hooks": len(sys.path_hooks),
+        "builtins": sorted(dir(__builtins__)),
+    }
+'''
+
+PROBE = WORLD + r'''
 MARK = "\n===IMPORTS-DONE===\n"
+_w0 = _world()
 states = []
 def snap():
     return sorted(m for m in sys.modules if m == "bs4" or m.startswith("bs4.") or m == "soupsieve" or m.startswith("soupsieve."))
 for stmt in STATEMENTS:
     exec(stmt, {})
     states.append(snap())
+_w1 = _world()
+world_delta = {k: [_w0[k], _w1[k]] for k in _w0 if _w0[k] != _w1[k]}
 sys.stdout.write(MARK); sys.stdout.flush()
 sys.stderr.write(MARK); sys.stderr.flush()
 import warnings
@@ -51,8 +68,33 @@ for parser in ("html.parser", "lxml", "html5lib", "xml"):
         b = [str(x.get("id")) + "/" + x.name for x in soupsieve.select(sel, soup)]
         c = soup.select_one(sel)
         out[parser + "|" + sel] = [a, b, None if c is None else c.name]
-print(json.dumps({"states": states, "probe": out}, sort_keys=True))
+print(json.dumps({"states": states, "probe": out, "world_delta": world_delta}, sort_keys=True, default=repr))
 '''
+
+
+CONTROL = WORLD + r'''
+_w0 = _world()
+sys.modules["soupsieve"] = None      # Beautiful Soup imported WITHOUT soupsieve: whatever changes now is not soupsieve's doing
+import warnings
+with warnings.catch_warnings():
+    warnings.simplefilter("ignore")
+    import bs4
+    import bs4.builder._html5lib, bs4.builder._lxml, bs4.builder._htmlparser
+_w1 = _world()
+print(json.dumps({k: [_w0[k], _w1[k]] for k in _w0 if _w0[k] != _w1[k]}, sort_keys=True, default=repr))
+'''
+_CONTROL = []
+
+
+def control_delta():
+    """World changes caused by importing Beautiful Soup and its parsers alone (soupsieve blocked): the allowance."""
+    if not _CONTROL:
+        rc, out, err = procs.run_program(CONTROL)
+        try:
+            _CONTROL.append(json.loads(out.strip().splitlines()[-1]))
+        except Exception:
+            _CONTROL.append(None)
+    return _CONTROL[0]
 
 
 def sequences(tier):
@@ -95,6 +137,13 @@ def run_sequence(seq):
         return r
     r['states'] = data['states']
     r['probe'] = data['probe']
+    allow = control_delta()
+    if allow is not None and data.get('world_delta') != allow:
+        wd = data.get('world_delta') or {}
+        keys = sorted(k for k in set(wd) | set(allow) if wd.get(k) != allow.get(k))
+        r.update(kind='import-changes-interpreter-state',
+                 detail=f'importing changed {keys}: ' + '; '.join(f'{k}: {str(wd.get(k))[:160]}' for k in keys[:2]))
+        return r
     for k, (a, b, c) in data['probe'].items():
         if a != b:
             r.update(kind='bs4-vs-soupsieve', detail=f'{k}: BeautifulSoup.select -> {a}, soupsieve.select -> {b}')
